@@ -332,6 +332,11 @@ func determinismReal(r *Run) {
 	}
 	var canon map[string][]byte
 	leftovers := 0
+	dupOf, dupStyle := -1, 0
+	if !par1Set && t.Bool(1, 6, "input-listed-twice") {
+		dupOf = t.Draw(len(w.Files), "dup-of")
+		r.Probe("input-listed-twice")
+	}
 	run := func(label string, cwdKind, style int, cli bool, g int) {
 		switch leftovers {
 		case 0:
@@ -348,6 +353,10 @@ func determinismReal(r *Run) {
 		var files []string
 		for _, f := range w.Files {
 			files = append(files, spellFrom(cwdKind, style, f.Name))
+		}
+		if dupOf >= 0 {
+			// one input is listed a second time, in a spelling of its own
+			files = append(files, spellFrom(cwdKind, dupStyle, w.Files[dupOf].Name))
 		}
 		cwd := cwdOf(cwdKind)
 		if cli {
@@ -414,6 +423,9 @@ func determinismReal(r *Run) {
 		cli := ParBin() != "" && t.Bool(1, 2, "cli")
 		g := []int{1, 2, 3, 8}[t.Draw(4, "g")]
 		leftovers = t.Pick([]int{4, 1, 1}, "leftovers")
+		if dupOf >= 0 {
+			dupStyle = t.Draw(6, "dup-style")
+		}
 		if leftovers > 0 {
 			r.Probe("create-over-existing-archive")
 			vars = append(vars, fmt.Sprintf("leftovers%d", leftovers))
